@@ -70,9 +70,12 @@ def translate(row, sid, cfg=None):
             if p.startswith('R'):
                 p = 'X'
             out.append(f"dispatch {p} {r['b']} {r['e']} {r['res']}")
+            if r['res'] != 'ok':
+                out.append(f"oRejected {r['b']} {r['e']} {lst(r['hist'])} {lst(r.get('q', []))}")
             out.append(f"oHist {r['b']} {lst(r['hist'])}")
             if r['res'] == 'ok' and 'q' in r:
                 out.append(f"oAccepted {r['b']} {r['e']} {lst(r['q'])}")
+
             if r['res'] == 'ok' and 'parent' in r:
                 out.append(f"oParent {p} {r['e']} {'-' if r['parent'] is None else r['parent']}")
                 if r.get('nchild') is not None and p.startswith('I'):
@@ -130,6 +133,11 @@ def translate(row, sid, cfg=None):
                 if not (nxt is not None and nxt['k'] == 'idleSet' and nxt['p'] == r['p']):
                     out.append(f"oIdle {r['b']} {int(r['bus']['idle'])}")
         elif k == 'peAbort':
+            if r.get('why') not in (None, 'CancelledError', 'RuntimeError'):
+                # an exception other than a cancellation escaped process_event
+                prev = log[idx - 1] if idx > 0 else None
+                wal = int(bool(prev and prev['k'] == 'walWrite' and not prev.get('ok', True) and prev.get('e') == r['e']))
+                out.append(f"oProcessRaised {r['b']} {r['e']} {r['why']} {wal}")
             out.append(f"peAbort {r['p']} {r['b']} {r['e']}")
         elif k == 'awaitBegin':
             out.append(f"awaitBegin {r['i']} {r['e']}")
@@ -211,10 +219,10 @@ def translate(row, sid, cfg=None):
             out.append(f"oNHandlers {r['b']} {r['bus']['nh'] + 1}")
         elif k == 'expectEnd':
             out.append(f"expectEnd {r['x']} {'-' if r['got'] is None else r['got']}")
-            out.append(f"oNHandlers {r['b']} {r['bus']['nh']}")
+            out.append(f"oAfterExpect {r['b']} {r['bus']['nh']}")
         elif k == 'expectCancel':
             out.append(f"expectCancel {r['x']}")
-            out.append(f"oNHandlers {r['b']} {r['bus']['nh']}")
+            out.append(f"oAfterExpect {r['b']} {r['bus']['nh']}")
         elif k == 'walWrite':
             out.append(f"walWrite {r['p']} {r['b']} {r['e']} {int(r['ok'])}")
             if r['ok'] and not r.get('faithful', True):
